@@ -496,7 +496,8 @@ pub fn gen_resolve(run: &mut Run) {
         "default", "ring", "toy", "none", "toy-nodh", "toy-nocipher", "toy-nohash", "toy-norng",
         "fb(ring,default)", "fb(default,ring)", "fb(none,default)", "fb(default,none)", "fb(none,none)", "fb(ring,none)",
         "fb(none,ring)", "fb(toy,default)", "fb(default,toy)", "fb(ring,toy)", "fb(toy-nodh,default)", "fb(fb(none,ring),default)",
-        "fb(none,fb(ring,default))",
+        "fb(none,fb(ring,default))", "mark1", "mark2", "fb(mark1,mark2)", "fb(mark2,mark1)", "fb(toy-norng,mark2)",
+        "fb(mark1,default)", "fb(default,mark1)", "fb(fb(none,mark2),mark1)", "fb(ring,mark1)",
     ];
     let kinds: [(&str, Vec<&str>); 4] = [
         ("rng", vec!["-"]),
@@ -629,9 +630,14 @@ pub fn run_transport(cfg: &TransportCfg, sc: &mut Sc) {
     };
     check_nonces(sc, &dirs);
     for _step in 0..cfg.steps {
-        let d = if oneway { 0 } else { r.below(2) };
+        let mut action = r.below(100);
+        // in a one-way pattern only the initiator sends; the state-only operations (rekeys, explicit
+        // nonces) are still exercised on the unused direction, where they must not disturb the used one
+        let d = if oneway { if action >= 70 && r.chance(1, 3) { 1 } else { 0 } } else { r.below(2) };
+        if oneway && d == 1 && action >= 94 {
+            action = 90;
+        }
         let (w, rd) = if d == 0 { (1u32, 2u32) } else { (2u32, 1u32) };
-        let action = r.below(100);
         if action < 30 {
             // write
             let plen = [0usize, 1, 15, 16, 17, 64, 300][r.below(7)];
@@ -766,15 +772,30 @@ pub fn run_transport(cfg: &TransportCfg, sc: &mut Sc) {
         } else if action < 88 {
             // manual rekey of direction d on one or both sides
             let k: [u8; 32] = r.bytes(32).try_into().unwrap();
+            let k2: [u8; 32] = r.bytes(32).try_into().unwrap();
             let both = r.chance(2, 3);
-            let (ki, kr) = if d == 0 { (Some(&k), None) } else { (None, Some(&k)) };
+            // sometimes both direction keys are replaced in one call
+            let two = r.chance(1, 3);
+            let (ki, kr) = if two {
+                if d == 0 { (Some(&k), Some(&k2)) } else { (Some(&k2), Some(&k)) }
+            } else if d == 0 {
+                (Some(&k), None)
+            } else {
+                (None, Some(&k))
+            };
             let o = sc.ex.rekey_manual(w, ki, kr);
             sc.check_panic(&o, "rekey_manually");
             dirs[d].send_key = format!("M({})", hex(&k));
+            if two {
+                dirs[1 - d].recv_key = format!("M({})", hex(&k2));
+            }
             if both {
                 let o = sc.ex.rekey_manual(rd, ki, kr);
                 sc.check_panic(&o, "rekey_manually");
                 dirs[d].recv_key = format!("M({})", hex(&k));
+                if two {
+                    dirs[1 - d].send_key = format!("M({})", hex(&k2));
+                }
             }
             sc.count("t.rekey_manual");
         } else if action < 94 {
@@ -799,7 +820,7 @@ pub fn run_transport(cfg: &TransportCfg, sc: &mut Sc) {
             sc.count("t.set_send_nonce");
         }
         // reads at the reserved nonce
-        if dirs[d].recv_n == u64::MAX {
+        if dirs[d].recv_n == u64::MAX && !(oneway && d == 1) {
             let o = sc.ex.t_read(rd, &r.bytes(32), 32);
             sc.check_panic(&o, "t_read at 2^64-1");
             if o.err() != Some("State(Exhausted)") {
@@ -852,9 +873,73 @@ pub fn run_stateless(cfg: &TransportCfg, sc: &mut Sc) {
     };
     let mut r = Rng64(cfg.seed ^ 0x7374617465);
     let mut written: Vec<(usize, u64, Vec<u8>, Vec<u8>)> = vec![];
-    for _ in 0..cfg.steps {
+    // symbolic key identities per direction: what the sender sends with / the receiver receives with
+    let mut skey = ["k".to_string(), "k".to_string()];
+    let mut rkey = ["k".to_string(), "k".to_string()];
+    let mut rekeyed = false;
+    for step in 0..cfg.steps {
         let d = if oneway { 0 } else { r.below(2) };
         let (w, rd) = if d == 0 { (1u32, 2u32) } else { (2u32, 1u32) };
+        // from the middle of the run on: rekeys (synchronised, one-sided, manual with one or both keys)
+        if step > cfg.steps / 2 && r.chance(1, 6) {
+            rekeyed = true;
+            match r.below(4) {
+                0 => {
+                    sc.ex.rekey(w, "out");
+                    sc.ex.rekey(rd, "in");
+                    skey[d] = format!("R({})", skey[d]);
+                    rkey[d] = format!("R({})", rkey[d]);
+                },
+                1 => {
+                    if r.chance(1, 2) {
+                        sc.ex.rekey(w, "out");
+                        skey[d] = format!("R({})", skey[d]);
+                    } else {
+                        sc.ex.rekey(rd, "in");
+                        rkey[d] = format!("R({})", rkey[d]);
+                    }
+                },
+                _ => {
+                    let k: [u8; 32] = r.bytes(32).try_into().unwrap();
+                    let k2: [u8; 32] = r.bytes(32).try_into().unwrap();
+                    let two = r.chance(1, 2);
+                    let (ki, kr) = if two { if d == 0 { (Some(&k), Some(&k2)) } else { (Some(&k2), Some(&k)) } } else if d == 0 { (Some(&k), None) } else { (None, Some(&k)) };
+                    sc.ex.rekey_manual(w, ki, kr);
+                    skey[d] = format!("M({})", hex(&k));
+                    if two {
+                        rkey[1 - d] = format!("M({})", hex(&k2));
+                    }
+                    if r.chance(2, 3) {
+                        sc.ex.rekey_manual(rd, ki, kr);
+                        rkey[d] = format!("M({})", hex(&k));
+                        if two {
+                            skey[1 - d] = format!("M({})", hex(&k2));
+                        }
+                    }
+                },
+            }
+            // after a key change: one message in each usable direction, accepted iff the key identities agree
+            for dd in 0..(if oneway { 1 } else { 2 }) {
+                let (w2, rd2) = if dd == 0 { (1u32, 2u32) } else { (2u32, 1u32) };
+                let p = r.bytes(24);
+                let n2 = r.next() % 1000;
+                if let Some(m) = sc.ex.st_write(w2, n2, &p, 40).bytes().map(<[u8]>::to_vec) {
+                    let o = sc.ex.st_read(rd2, n2, &m, 24);
+                    let insync = skey[dd] == rkey[dd];
+                    if insync && o.bytes() != Some(p.as_slice()) {
+                        sc.viol("C15", format!("{}: stateless message after key change not delivered although both sides hold key {}: {o:?}", cfg.name, skey[dd]));
+                    }
+                    if !insync && o.is_ok() {
+                        sc.viol("C15", format!("{}: stateless message accepted although sender key {} and receiver key {} differ", cfg.name, skey[dd], rkey[dd]));
+                    }
+                }
+            }
+            continue;
+        }
+        if rekeyed {
+            // the plain part of the run (purity, nonce handling) is exercised before the first key change
+            continue;
+        }
         let n = match r.below(8) {
             0 => u64::MAX,
             1 => u64::MAX - 1,
@@ -906,6 +991,7 @@ pub fn run_stateless(cfg: &TransportCfg, sc: &mut Sc) {
         }
     }
     // equality with the stateful sender: fresh identical pair in stateful mode
+    // (messages in `written` all predate the first key change)
     sc.ex.drop_session(1);
     sc.ex.drop_session(2);
     if !quick_pair(sc, &cfg.name, &cfg.res_i, &cfg.res_r, cfg.seed, false) {
